@@ -259,7 +259,85 @@ def admission_gate(src):
         src.check('event-from-unadmitted-peer-ignored', d is None, sig=kind, difference=d)
 
 
+@rigged
+def proxy_loop(src, k=4):
+    """H13e: the real SupervisorProxyThread.run (executed in this thread) on a backlog of k solver-chosen messages;
+    the proxy server stops it (what it does for an instance that has become ISOLATED) while message j is being
+    handled: nothing of the backlog goes out afterwards"""
+    import supvisors.internal_com.supervisorproxy as SP
+    from supvisors.ttypes import SupvisorsInstanceStates as S
+    IEH = SP.InternalEventHeaders
+    cl = Cluster(2, {'synchro_options': 'LIST,TIMEOUT', 'synchro_timeout': '15'})
+    core = cl.cores[0]
+    peer = core.ids[1]
+    status = core.set_instance_state(peer, S.RUNNING)
+    sent = []
+
+    class Remote:
+        class supervisor:
+            @staticmethod
+            def sendRemoteCommEvent(etype, data):
+                sent.append(('event', etype))
+                return True
+
+            @staticmethod
+            def stopProcess(namespec, wait=True):
+                sent.append(('stopProcess', namespec))
+                return True
+
+            @staticmethod
+            def restart():
+                sent.append(('restart',))
+                return True
+
+        class supvisors:
+            @staticmethod
+            def start_args(namespec, args, wait=True):
+                sent.append(('start_args', namespec))
+                return True
+    thread = SP.SupervisorProxyThread(status, core)
+    thread._proxy = Remote
+    closing = []
+    core.rpc_handler.proxy_server.on_proxy_closing = lambda ident: closing.append(ident)
+    origin = core.ident
+    from supvisors.ttypes import PublicationHeaders as PH, RequestHeaders as RH
+    menu = {'tick': (IEH.PUBLICATION, (origin, (PH.TICK.value, {'when': 1.0}))),
+            'process': (IEH.PUBLICATION, (origin, (PH.PROCESS.value, {'name': 'p'}))),
+            'start': (IEH.REQUEST, (origin, (RH.START_PROCESS.value, ('app:p', '')))),
+            'stop': (IEH.REQUEST, (origin, (RH.STOP_PROCESS.value, ('app:p',))))}
+    kinds = [src.pick(f'message{i}', list(menu)) for i in range(k)]
+    for kind in kinds:
+        thread.push_message(menu[kind])
+    stop_during = src.pick_int('stopped_while_handling', 1, k)
+    isolated = src.pick_flag('isolated_at_that_moment')
+    handled = [0]
+    real = thread.process_event
+
+    def process_event(event):
+        handled[0] += 1
+        if handled[0] == stop_during:
+            # the main thread: the peer has just been isolated (or Supvisors is stopping) -> the proxy is stopped
+            if isolated:
+                adapter_state(core, peer, S.ISOLATED)
+            thread.stop()
+        return real(event)
+    thread.process_event = process_event
+    thread.run()
+    src.check('nothing-handled-once-stopped', handled[0] == stop_during, sig='backlog', handled=handled[0],
+              stopped_while_handling=stop_during, backlog=kinds)
+    src.check('proxy-closing-notified-once', closing == [peer], sig='closing', closing=closing)
+    src.check('no-internal-error', not core.logger.tracebacks(), log=core.logger.tracebacks()[:1])
+    src.reach('done')
+
+
+def adapter_state(core, identifier, state):
+    from rig import adapter
+    adapter.plant_instance_state(core, identifier, state)
+
+
 HARNESSES = [
+    Harness('H13e', proxy_loop, quick={'k': 4}, thorough={'k': 6}, reach=('done',), timeout=(60, 300),
+            doc='real proxy thread loop: a stopped proxy (isolated peer) does not flush its backlog'),
     Harness('H13a', forged_messages, quick={'n': 3, 'count': 1}, thorough={'n': 3, 'count': 2}, reach=('done',),
             timeout=(150, 1800), doc='every message kind x claimed origin after isolation, twin comparison'),
     Harness('H13b', handshake, quick={}, thorough={}, reach=('admitted', 'refused', 'inconsistent', 'unreachable',
